@@ -8,8 +8,8 @@ import io
 import itertools
 import z3
 from .. import s1, tdmsmodel as tm
-from ..sx import explore, ex, SymInt, PathAbort, Violation, Inconclusive, Ctx
-from ..stream import Builder, SymStream
+from ..sx import explore, ex, SymInt, PathAbort, Violation, Inconclusive, Ctx, run_concrete
+from ..stream import Builder, SymStream, concrete_file
 
 G = "/'g'"
 PATHS = ["/'g'/'a'", "/'g'/'b'", "/'h'/'c'"]
@@ -226,7 +226,7 @@ class _T:
         self.nptype = None
 
 
-def _run_chunks(task):
+def _chunks_fn(task):
     from nptdms.tdms_segment import TdmsSegment, TdmsSegmentObject
     K, inter, incomplete = task['K'], task['inter'], task['incomplete']
 
@@ -238,7 +238,7 @@ def _run_chunks(task):
             nvs.append(nv)
         if inter:
             for k in range(1, K):
-                ctx.add(nvs[k].e == nvs[0].e)
+                ctx.add(ex(nvs[k]) == ex(nvs[0]))
         has = [bool(ctx.choice('has%d' % k, 2)) if K > 1 else True for k in range(K)]
         total = ctx.int('total_data_size', 0)
         toc = 2 | 4 | 8 | (32 if inter else 0)
@@ -297,8 +297,11 @@ def _run_chunks(task):
                     conj.append(z3.And(got >= 0, got <= ex(nvs[k])))
         ctx.prove(z3.And(*conj), lambda m: dict(override={p: str(v) for p, v in ov.items()}), what='chunks-partial')
         ctx.note('chunks-partial')
+    return fn
 
-    st = explore(fn, max_paths=60000, time_budget=900)
+
+def _run_chunks(task):
+    st = explore(_chunks_fn(task), max_paths=60000, time_budget=900)
     st.pop('wall_s', None)
     return st
 
@@ -308,7 +311,7 @@ KC_TYPES = [(3, 4), (2, 2), (4, 8), (10, 8), (0x44, 16)]
 KC_KINDS = ['full', 'same', 'nodata', 'unlisted']
 
 
-def _run_kc(task):
+def _kc_fn(task):
     """Real TdmsReader.read_metadata on an index-form stream (TDSh, no raw data) of S segments x 2 channels whose value counts,
     next-segment and raw-data offsets and an integer property are SYMBOLIC and unbounded; chunk counts are a solver-driven
     choice (<= 3).  Oracle: the format's inheritance rules and length arithmetic, stated independently below."""
@@ -390,7 +393,7 @@ def _run_kc(task):
                         b.field(1, 4, E)
                         b.raw(b'p')
                         b.field(w[0], 4, E)
-                        b.field(SymInt.mk(z3.If(pv.e < 0, pv.e + 2 ** (8 * w[1]), pv.e)) if w[2] else pv, w[1], E)
+                        b.field(SymInt.mk(z3.If(ex(pv) < 0, ex(pv) + 2 ** (8 * w[1]), ex(pv))) if w[2] else pv, w[1], E)
                         prop_last = pv
                     else:
                         b.field(0, 4, E)
@@ -408,7 +411,7 @@ def _run_kc(task):
                 expect_len[p] = expect_len[p] + ex(nv) * nc
             segs.append(dict(nc=nc, chunk=chunk, pos=pos, data_pos=pos + 28 + meta_len, active=list(active)))
             pos = pos + 28 + ex(nso)
-        f = SymStream(b.regions)
+        f = (concrete_file(b.regions) if getattr(ctx, 'concrete', False) else None) or SymStream(b.regions)
         r = TdmsReader.__new__(TdmsReader)
         r._file_path = None
         r._index_file_path = None
@@ -440,11 +443,14 @@ def _run_kc(task):
                 ctx.fail('kc-missing-object', path=p)
         if prop_last is not None:
             got = r.object_metadata[paths[0]].properties.get('p')
-            conj.append(ex(got) == prop_last.e)
+            conj.append(ex(got) == ex(prop_last))
         ctx.prove(z3.And(*conj), what='kc-lengths-positions')
         ctx.note('index-stream-kernel')
+    return fn
 
-    st = explore(fn, max_paths=60000, time_budget=1500)
+
+def _run_kc(task):
+    st = explore(_kc_fn(task), max_paths=60000, time_budget=1500)
     st.pop('wall_s', None)
     return st
 
@@ -608,4 +614,14 @@ def replay(art):
         if got != exp:
             return dict(sig=signature(dict(task=task, what=art.get('what'))), got=str(got), expected=str(exp))
         return None
+    if task['kind'] in ('chunks', 'kc'):
+        # the same harness on pinned inputs against the plain package (real struct, real bytes, Python ints)
+        try:
+            v = run_concrete(_chunks_fn(task) if task['kind'] == 'chunks' else _kc_fn(task), inp)
+        except Exception as e:
+            return dict(sig=signature(dict(task=task, what=art.get('what'))), exception=repr(e)[:200], inputs=inp)
+        if v is None:
+            return None
+        return dict(sig=signature(dict(task=task, what=v.get('what'))), detail={k: str(x)[:200] for k, x in v.items() if k != 'inputs'},
+                    inputs=inp)
     return dict(sig=signature(dict(task=task, what=art.get('what'))), note='kernel obligation on internal state; inputs: %r' % (inp,))
